@@ -117,6 +117,17 @@ def units(tier, seed=0):
                         continue
                     us.append(UnitSpec('entry/%s/%s/%s/v%d' % (kind, cn, 'thumb' if thumb else 'arm', arch), 'vf.c11',
                                        'mk_entry', dict(kind=kind, cfgname=cn, thumb=thumb, arch=arch)))
+    # dispatch: the same entries reached through the real emulate_cycle by exception-generating instructions (SVC, SMC,
+    # UDF, BKPT, alignment-faulting LDREX/LDRD) -- in Thumb state with an arbitrary ITSTATE, so the SPSR must hold the
+    # CPSR of the instruction boundary (IT bits of the faulting instruction; advanced for SVC/SMC)
+    from vf import famcheck, step
+    T = list(step.FAMILIES)
+    step.load_tables(T)
+    from spec.isa import ISA
+    rows = ['SvcA1', 'SvcT1', 'SmcA1', 'SmcT1', 'UdfA1', 'UdfT1', 'UdfT2', 'BkptA1', 'BkptT1', 'LdrexT1', 'LdrexA1',
+            'LdrdImmediateT1', 'LdrexdT1']
+    rows = [r for r in rows if r in ISA]
+    us += famcheck.family_units(set(ISA[r].family for r in rows), archs, T, only=rows, tag='/dispatch')
     return us
 
 
@@ -126,8 +137,9 @@ META = {
                    'A/I/F, E; all banked registers; PC; SCTLR.{V,VE,TE,EE,NMFI}; all SCR bits; HCR.{TGE,AMO,IMO,FMO}; '
                    'HSCTLR.{TE,EE}; VBAR/MVBAR/HVBAR symbolic) and every component of the post-state is compared '
                    'with the B1.9 pseudocode oracle (mode, SPSR, LR/ELR_hyp, masks, IT/J/T/E, SCR.NS, PC = vector) '
-                   'including the frame (nothing else changes). Dispatch through emulate_cycle is covered by the '
-                   'SVC/SMC/UDF/aborting load rows of the functional checks.',
+                   'including the frame (nothing else changes). Dispatch through the real emulate_cycle is checked with '
+                   'the exception-generating instruction rows (SVC, SMC, UDF, BKPT, alignment-faulting LDREX/LDRD; '
+                   'ARM and Thumb with arbitrary ITSTATE) against the one-step oracle.',
     'bounds': ['configurations enumerated: security ext present/absent, virtualization ext present (ARMv7), arch 6/7',
                'T enumerated (ARM/Thumb); everything else symbolic'],
     'outside': ['prefetch abort, virtual interrupts, external/asynchronous aborts (is_external_abort/is_async_abort '
